@@ -467,6 +467,16 @@ def gen_hist(r, backend, idx=None):
                  {'t': form[0], 'f': {'shape': form[1], 'vals': vals, 'cont': 'num' if form[1] == 's' else 'list'}, 'inplace': form[2]}]
         if nd['units'] is None or nd['units'][0] == 'num':
             nd['units'] = ['str', '8 nm']
+    if (idx is not None and idx in (0, 3, 4)) or (idx is None or idx >= 8) and r.random() < 0.2:
+        # integer-typed node table (voxel coordinates, integer radii): operands with non-integer results
+        nd = h.intify(r, nd, h.INT_DTYPES[(idx or 0) % 3] if idx is not None and idx < 8 else None)
+        nd['units'] = r.choice([['str', '8 nm'], ['str', 'nm'], ['str', '16 nanometers'], ['str', '4 nm']])
+        for st in steps:
+            if st['t'] in ('mul', 'div'):
+                if st['f']['shape'] == 's':
+                    st['f'] = {'shape': 's', 'vals': [r.choice([3, 2.5, 0.5, 125, 1.5, 7])], 'cont': 'num'}
+                else:
+                    st['f']['vals'] = [r.choice([2.5, 0.5, 1.5, 3]) for _ in st['f']['vals']]
     if nd['units'] is None or nd['units'][0] == 'num':
         steps = [s for s in steps if s['t'] != 'convert']
     n = len(nd['rows'])
@@ -541,6 +551,21 @@ def case_histmd(ctx, case):
     d, kind = case['neuron'], case['neuron']['k']
     x, y = h.build(d), h.build(d)
     hd = f"{h.CLS[kind]} warm ; " + ' ; '.join(step_desc(s) for s in case['steps'])
+    if h.int_points(x, kind):
+        # integer-typed points: compare with the same history on the float-typed neuron (known finding: truncation)
+        yf = h.build(dict(d, dtype=None))
+        md_warm(y, kind)
+        try:
+            for st in case['steps']:
+                y, yf = apply_step(y, st), apply_step(yf, st)
+        except (ValueError, TypeError, ZeroDivisionError) as e:
+            ctx.count('histmd', f'Dotprops/int/raises:{type(e).__name__}')
+            return
+        ctx.count('histmd', 'Dotprops/integer-points')
+        ctx.oracle(close(np.asarray(y.points, dtype=float), np.asarray(yf.points, dtype=float)),
+                   f'{hd} on integer-typed points ({np.asarray(x.points).dtype}): result {_short(np.asarray(y.points).tolist())} differs from '
+                   f'the float-typed neuron {_short(np.asarray(yf.points).tolist())} (truncated)', case, signature=h.INT_DP_SIG)
+        return
     ox = md_observables(md_fresh(x, kind), kind)
     ux = unit_metres(x)
     uvec_x = np.asarray(x.units_xyz.magnitude, dtype=float)
@@ -618,6 +643,8 @@ def gen_histmd(r, kind, idx=None):
             f = {'shape': 'v3', 'vals': [r.choice([4, -8, 100, 0.5]) for _ in range(3)], 'cont': 'list'} if r.random() < 0.5 \
                 else {'shape': 's', 'vals': [r.choice([4, -8, 100])], 'cont': 'num'}
         steps.append({'t': t, 'f': f, 'inplace': r.random() < 0.5, 'rewarm': r.random() < 0.4})
+    if r.random() < 0.25 or (idx is not None and idx in (1, 5)):
+        nd = h.intify(r, nd)           # integer-typed vertices / points
     if idx is not None and idx < 8:
         # deterministic core: every operator once in place and once on a copy, after warming, on the large neuron
         t = ['mul', 'div', 'add', 'sub'][idx % 4]
@@ -625,6 +652,14 @@ def gen_histmd(r, kind, idx=None):
         steps = [{'t': t, 'f': f, 'inplace': idx < 4, 'rewarm': False}]
         if kind == 'D':
             nd['points'] = [[h.dy(r), h.dy(r), h.dy(r)] for _ in range(40)]
+            if nd.get('dtype'):
+                nd['points'] = [[int(round(c)) for c in p_] for p_ in nd['points']]
+    if nd.get('dtype'):
+        for st in steps:
+            if st['t'] in ('mul', 'div'):
+                st['f']['vals'] = [r.choice([3, 2.5, 0.5, 1.5]) for _ in st['f']['vals']]
+            else:
+                st['f']['vals'] = [r.choice([0.5, 2.5, -1.5]) for _ in st['f']['vals']]
     return {'neuron': nd, 'steps': steps}
 
 
